@@ -281,6 +281,10 @@ func handleServerKeyExchange(
 		if psk, err = cfg.LocalPSKCallback(bytes.Clone(keyExchangeMessage.IdentityHint)); err != nil {
 			return &alert.Alert{Level: alert.Fatal, Description: alert.InternalError}, err
 		}
+		if len(psk) == 0 {
+			// an empty key is no key: a peer that knows nothing would share it
+			return &alert.Alert{Level: alert.Fatal, Description: alert.HandshakeFailure}, dtlserrors.ErrEmptyPSK
+		}
 		state.IdentityHint = bytes.Clone(keyExchangeMessage.IdentityHint)
 		switch state.CipherSuite.KeyExchangeAlgorithm() {
 		case ciphersuite.KeyExchangeAlgorithmPsk:
